@@ -13,6 +13,11 @@ Theorem C18_update_code_is_max : forall cur new,
   gen_update cur new = Some (N.max cur new, N.ltb cur new).
 Proof. exact ReloadId_update_tie. Qed.
 
+(* 1b. ... where `>` on ids is the derived comparison of the wrapped numbers *)
+Theorem C18_code_ids_compare_as_numbers :
+  forallb (derives ReloadId_derives) ["PartialEq"; "Eq"; "PartialOrd"; "Ord"]%string = true.
+Proof. exact reload_ids_compare_as_numbers. Qed.
+
 Theorem C18_update_true_iff_grew : forall cur new,
   snd (update cur new) = true <-> cur < fst (update cur new).
 Proof. exact update_true_iff_grew. Qed.
